@@ -54,7 +54,7 @@ impl Visitor for TypeCheckInsideCallVisitor {
         if_chain::if_chain! {
             // Check that we're using type or typeof
             if let ast::Prefix::Name(name) = call.prefix();
-            if is_type_function(&name.to_string(), self.roblox);
+            if is_type_function(&name.token().to_string(), self.roblox);
 
             // Check that we're calling it with an argument
             if let ast::Suffix::Call(call) = call.suffixes().next().unwrap();
